@@ -2,6 +2,7 @@ import Driver.Common
 import Cppcheck.Model.Lexer
 import Cppcheck.Model.MatchEquiv
 import Cppcheck.Gen.Reserved
+import Cppcheck.Model.PerFunction
 open Cppcheck.Wire Cppcheck.Lexer
 
 namespace Driver.C05
@@ -59,6 +60,23 @@ def optToks (o : Option (List RTok)) : String :=
   | none => "U"
   | some ts => toksStr ts
 
+open Cppcheck.PerFunction in
+def parseItems (s : String) : List Item :=
+  (s.splitOn ",").filterMap fun w =>
+    if w == "t" then some Item.throw
+    else if w.startsWith "c" then (w.drop 1).toString.toNat?.map Item.call
+    else none
+
+open Cppcheck.PerFunction in
+/-- `<kind><declThrows>:<items>` e.g. `10:c1,t` -/
+def parseFn (f : String) : Option Fn :=
+  match f.splitOn ":" with
+  | [hd, items] =>
+    match (hd.take 1).toString.toNat?, (hd.drop 1).toString with
+    | some k, d => some ⟨k, d == "1", if items == "-" then [] else parseItems items⟩
+    | _, _ => none
+  | _ => none
+
 def step (line : String) : String :=
   match fields line with
   | ["lex", src] =>
@@ -91,6 +109,11 @@ def step (line : String) : String :=
       let dots := dotsOKB ts
       s!"ok={boolStr (elemsOK es)} ok2={boolStr (elemsOK es')} rel={boolStr rel} pres={boolStr pres} dots={boolStr dots} src={toHex (renderE es)} src2={toHex (renderE es')} | {toksStr ts} | {toksStr ts'} | {optToks (tokens (renderE es))} | {optToks (tokens (renderE es'))}"
     | _, _ => "bad-op"
+  | "nothrow" :: order :: fns =>
+    let defs := (order.splitOn ",").filterMap String.toNat?
+    let P := fns.filterMap parseFn
+    if P.length != fns.length then "bad-op"
+    else "F " ++ " ".intercalate ((Cppcheck.PerFunction.nothrowThrows P defs).map fun x => s!"{x.1}:{x.2.1}:{x.2.2}")
   | ["reserved"] =>
     " ".intercalate (Cppcheck.Gen.Reserved.reserved.map toHex)
   | ["patlits", p] =>
